@@ -17,6 +17,7 @@ def run(prop, jobs=8):
     entries = [e for e in CORPUS if e.get("benign") or prop in e.get("expect", {})]
     seeds = []
     benign_seeds = []
+    known_imprecision = []
     sd = os.path.join(HERE, "seeded")
     if os.path.isdir(sd):
         for d in sorted(os.listdir(sd)):
@@ -25,7 +26,9 @@ def run(prop, jobs=8):
                 m = json.load(open(mp))
                 if m.get("breaks_property") == prop:
                     seeds.append((d, os.path.join(sd, d, "patch.diff")))
-                elif m.get("benign") and prop not in (m.get("still_alarming") or {}):
+                elif m.get("benign") and m.get("expected_alarm"):
+                    known_imprecision.append(d)        # documented heavy rewrite that still alarms somewhere (DESIGN §8.2 / §10)
+                elif m.get("benign") and not (isinstance(m.get("still_alarming"), dict) and prop in m["still_alarming"]):
                     # behaviour-preserving refactorings: this property's rules must stay silent on them
                     benign_seeds.append((d, os.path.join(sd, d, "patch.diff")))
     slots = list(range(jobs))
@@ -93,6 +96,7 @@ def run(prop, jobs=8):
         "benign_edits": sum(1 for r in results if r[1] in ("silent", "false-alarm")),
         "false_alarms": [r[0] for r in results if r[1] == "false-alarm"],
         "skipped": [r[0] for r in results if r[1] == "skipped"],
+        "known_imprecision_not_run": len(known_imprecision),
         "errors": [r[0] for r in results if r[1] == "error"],
         "entries": [{"id": r[0], "result": r[1], "keys": r[2][:4]} for r in results],
     }
